@@ -30,7 +30,38 @@ func runC03(r *Run) {
 	r.rule("C03.R6", "EndBlock order: the hold-releasing module precedes the delegation module", 1)
 	r.rule("C03.R7", "pending aggregates move with the record (C01 delta obligations of the exit path)", 4)
 	r.rule("C03.R8", "a pending record modified through an iterator helper is always written back; the share-zeroing after a full slash touches only the undelegatable share (pending amounts survive)", 3)
-	r.rule("C03.R9", "an undelegation is never rejected because of the operator's opt-out state: the hold hook that every undelegation runs through does not use an absent opt-out finish epoch as a queue key (C16.R6 obligation)", 1)
+	r.rule("C03.R9", "an undelegation is never rejected because of the operator's opt-out state (C16.R6 obligation); a record slashed to zero is still released", 2)
+	// a record whose amount was slashed to zero is still released: the native-token credit builds its coins with
+	// sdk.NewCoins, which drops a zero coin (a Coins literal with a zero coin is invalid and makes the bank call
+	// fail, after which EndBlock skips the record for good), or the credit is guarded by a positivity test
+	if ev := w.View("x/delegation/keeper", "Keeper.EndBlock"); ev != nil {
+		ok, n := true, 0
+		for _, c := range ev.CallsNamed("UndelegateCoinsFromModuleToAccount") {
+			n++
+			if len(c.Args) != 4 {
+				ok = false
+				continue
+			}
+			good := false
+			for _, d := range ev.resolveDefs(c.Args[3], 0) {
+				if dc, isC := stripParens(d).(*ast.CallExpr); isC && strings.HasSuffix(exprString(dc.Fun), "NewCoins") {
+					good = true
+				}
+			}
+			for _, f := range ev.FactsAt(c, false) {
+				if fc, isC := stripParens(f.Atom).(*ast.CallExpr); isC {
+					nm := ev.calleeName(fc)
+					if (nm == "IsPositive" && f.Truth) || (nm == "IsZero" && !f.Truth) {
+						good = true
+					}
+				}
+			}
+			if !good {
+				ok = false
+			}
+		}
+		r.check(ok && n >= 1, "C03.R9", "release|zero-amount-still-released", ev.pos(ev.Decl), "a native-token record whose amount is zero is released like any other (zero coins are dropped, not passed to the bank as an invalid coin set)", "the native-token credit of EndBlock passes a raw sdk.Coins literal to the bank: for a record slashed to exactly zero the call fails with an invalid-coins error, the record is skipped and never visited again")
+	}
 	if r.Prop == "C03" {
 		sub := NewRun(r.W, "C16", r.Tier, r.Seed)
 		runC16(sub)
